@@ -2,12 +2,12 @@
 //! (`parse_recognize::<Value>`) + `Value::eq`, and the consequence for the keys of the backpressure queue.
 //!
 //! Ops (every text is hex of its UTF-8 bytes, `-` = empty):
-//!   ev <t>          ;; `<tok,tok,..|-> <end|err>`   the `ReadEvent`s the real `ParseIterator` produces (observed through a
+//!   ev <t>          ;; `evs=<tok,tok,..|-> <end|err>`   the `ReadEvent`s the real `ParseIterator` produces (observed through a
 //!                                                    recording `Recognizer` passed to the public `parse_recognize`)
-//!   val <t>         ;; `ok:<venc>` | `err` | `panic`  `parse_recognize::<Value>(t, false)`
-//!   hash <t>        ;; `<call,call,..>`               every `Hasher::write_*` call `recon_hash(t, _)` makes
+//!   val <t>         ;; `val=ok:<venc>` | `val=err` | `val=panic`  `parse_recognize::<Value>(t, false)`
+//!   hash <t>        ;; `calls=<call,call,..>`               every `Hasher::write_*` call `recon_hash(t, _)` makes
 //!   pair <a> <b>    ;; `cmp=<0|1|panic> rcmp=.. heq=<0|1|panic> va=<ok|err|panic> vb=.. veq=<0|1|->`
-//!   keys <t1> .. <tn> ;; `<i>:<j>,..`  push `Update(key = t_k, value = k)` for k = 0..n-1 into the real
+//!   keys <t1> .. <tn> ;; `entries=<i>:<j>,..`  push `Update(key = t_k, value = k)` for k = 0..n-1 into the real
 //!                        `MapOperationQueue`, pop everything: entry = (index of the text equal to the popped key, popped value)
 //! An op with a text outside the float fragment (see `in_float_fragment`) is answered `out-of-fragment`, by the model too.
 //!
@@ -154,9 +154,9 @@ fn ev_op(text: &str) -> String {
     let evs = EVENTS.with(|e| e.borrow().join(","));
     let evs = if evs.is_empty() { "-".to_string() } else { evs };
     match r {
-        Ok(true) => format!("{} end", evs),
-        Ok(false) => format!("{} err", evs),
-        Err(_) => format!("{} panic", evs),
+        Ok(true) => format!("evs={} end", evs),
+        Ok(false) => format!("evs={} err", evs),
+        Err(_) => format!("evs={} panic", evs),
     }
 }
 
@@ -209,9 +209,9 @@ fn hash_calls(text: &str) -> Result<Vec<String>, ()> {
 
 fn hash_op(text: &str) -> String {
     match hash_calls(text) {
-        Ok(c) if c.is_empty() => "-".into(),
-        Ok(c) => c.join(","),
-        Err(()) => "panic".into(),
+        Ok(c) if c.is_empty() => "calls=-".into(),
+        Ok(c) => format!("calls={}", c.join(",")),
+        Err(()) => "calls=panic".into(),
     }
 }
 
@@ -223,9 +223,9 @@ fn parse_one(text: &str) -> Result<Result<Value, ()>, ()> {
 
 fn val_op(text: &str) -> String {
     match parse_one(text) {
-        Ok(Ok(v)) => format!("ok:{}", venc(&v)),
-        Ok(Err(())) => "err".into(),
-        Err(()) => "panic".into(),
+        Ok(Ok(v)) => format!("val=ok:{}", venc(&v)),
+        Ok(Err(())) => "val=err".into(),
+        Err(()) => "val=panic".into(),
     }
 }
 
@@ -272,7 +272,7 @@ fn keys_op(texts: &[String]) -> String {
             let key = BytesMut::from(t.as_bytes());
             let value = BytesMut::from(format!("{}", k).as_bytes());
             if q.push(MapOperation::Update { key, value }).is_err() {
-                return "invalid-key".to_string();
+                return "entries=invalid-key".to_string();
             }
         }
         let mut out = vec![];
@@ -287,12 +287,12 @@ fn keys_op(texts: &[String]) -> String {
             }
         }
         if out.is_empty() {
-            "-".to_string()
+            "entries=-".to_string()
         } else {
-            out.join(",")
+            format!("entries={}", out.join(","))
         }
     }));
-    r.unwrap_or_else(|_| "panic".into())
+    r.unwrap_or_else(|_| "entries=panic".into())
 }
 
 // ------------------------------------------------------------------------------------------- the float fragment
